@@ -140,7 +140,12 @@ fn check_d<const D: usize>(g: &G, ctx: &mut Ctx) -> Result<(), Failure> {
         }
         let nterms = ne as f64 + 3.0;
         let scale = jt[full].ln().abs() + ln_gamma(dod).abs() + g.weights.iter().map(|&w| ln_gamma(w).abs()).sum::<f64>() + (D * nl) as f64;
-        let tol = 1e-12 * nterms + 8.0 * eps * scale;
+        // Gamma is ill-conditioned near 0: the code's own dod (a difference of f64 sums, checked by C03 to the rounding
+        // of those sums) may differ from the exact dod by a few ulps of the weights, which Gamma(dod) ~ 1/dod amplifies
+        let dyadic_w = g.weights.iter().all(|w| (w * 64.0).fract() == 0.0 && *w < 1024.0);
+        let ddod = if dyadic_w { 0.0 } else { 4.0 * (ne as f64 + 2.0) * eps * (g.wsum_abs() + (nl * D) as f64 / 2.0 + 1.0) };
+        let psi_bound = 1.0 / dod + dod.ln().abs() + 1.0;
+        let tol = 1e-12 * nterms + 8.0 * eps * scale + psi_bound * ddod;
         let dev = (got.ln() - ln_want).abs();
         ctx.max("cached_factor_ln_err_over_tol", dev / tol);
         if !(dev <= tol) {
